@@ -26,7 +26,7 @@ OUTDIR = os.environ.get("VERIF_OUT", ROOT)  # evidence/ and replays/ go here (sc
 NCPU = min(16, os.cpu_count() or 4)
 GUARD = "SPQLIOS_VERIF"
 
-SAN_ASAN = ("-fsanitize=address,undefined -fno-sanitize=shift-base -fno-sanitize-recover=all "
+SAN_ASAN = ("-fsanitize=address,undefined,float-cast-overflow,float-divide-by-zero -fno-sanitize=shift-base -fno-sanitize-recover=all "
             "-fno-omit-frame-pointer")
 CFGS = {
     # name: (library/harness C flags, link flags)
